@@ -1,51 +1,76 @@
 # multi-bulk path only; the inline-command path (decodeSingleLineBulkBytesArray, the `default:` clause
 # of decodeResp) is extracted as c12_decoder_sites_inline but NOT pinned: it is outside the quantifier
 EXPECTED_DECODER_SITES = [
-    "NewDecoder: return &Decoder{r: r, offset: 0}",
-    "MustDecodeOpt: return resp, -1, err",
-    "MustDecodeOpt: return resp, d.offset, nil",
+    "NewDecoder: return &Decoder{r: v0, offset: 0}",
+    "MustDecodeOpt: return v1, -1, v2",
+    "MustDecodeOpt: return v1, v0.offset, nil",
     "decodeType: d.offset++",
-    "decodeType: read ReadByte",
-    "decodeText: read ReadBytes",
-    "decodeText: d.offset += int64(len(b))",
-    "decodeBulkBytes: read io.ReadFull",
-    "decodeBulkBytes: d.offset += int64(len(b))"
+    "decodeType: read ReadByte()",
+    "decodeText: read ReadBytes('\\n')",
+    "decodeText: d.offset += int64(len(d.r.ReadBytes('\\n')#0))",
+    "decodeBulkBytes: read full(make([]byte, d.decodeInt()#0 + 2))",
+    "decodeBulkBytes: d.offset += int64(len(make([]byte, d.decodeInt()#0 + 2)))",
 ]
 
+# decodeType / decodeText / decodeBulkBytes are tied STRUCTURALLY (harness/extract/c12_flow.go), not by body digest:
+# EXPECTED_DECODER_SITES renders their reader calls (with the size, by def-use: `full` = io.ReadFull or
+# io.ReadAtLeast(.., len(b))) and their offset increments; EXPECTED_DECODER_CONSTS is what they - and any helper
+# of decoder.go they are split into - compare and call (literals as a multiset, number of comparisons, fields,
+# qualified calls, builtins). goto -> for, an extracted helper, ReadFull -> ReadAtLeast, renamed locals leave both
+# alone; a new threshold, another size, a dropped / added reader call or increment, a new field do not.
+EXPECTED_DECODER_CONSTS = ["lit '\\n'", "lit '\\n'", "lit '\\n'", "lit '\\r'", "lit '\\r'", "lit 0", "lit 0", "lit 0", "lit 0", "lit 1", "lit 1", "lit 1", "lit 2", "lit 2", "comparisons 11", "builtin len", "builtin make", "call errors.WithStack", "call io.full", "field d.decodeInt", "field d.offset", "field d.r"]
+
 # digests of the function bodies the model transcribes (decodeResp without its default clause) and of
-# RedisConn.Send/send. A mismatch means "re-read the model against the code", it is a broken TIE,
+# RedisConn.Send/send, taken of a NORMAL FORM (harness/extract/c12_norm.go: local / parameter / label names
+# replaced by position, comments dropped, error and log texts blanked), so that renaming a local or
+# rewording an error is not a tie failure. A mismatch means "re-read the model against the code", it is a broken TIE,
 # not evidence of a defect; size-dependent control flow that no practical input reaches (e.g. a cap
 # on `$n` at 512 MiB) is only visible here.
 EXPECTED_BODIES = {
-    "pkg/redis/client/conn/redis_conn.go:Send": "80178038c23a",
-    "pkg/redis/client/conn/redis_conn.go:send": "6f6fdb8dd1a5",
-    "pkg/redis/client/decoder.go:MustDecodeOpt": "ba0ce340a001",
-    "pkg/redis/client/decoder.go:NewDecoder": "6b54a39a377e",
-    "pkg/redis/client/decoder.go:decodeArray": "dd894a6ff23a",
-    "pkg/redis/client/decoder.go:decodeBulkBytes": "73e12a9548e6",
-    "pkg/redis/client/decoder.go:decodeInt": "91d01079d250",
-    "pkg/redis/client/decoder.go:decodeResp": "2ce567d36dff",
-    "pkg/redis/client/decoder.go:decodeText": "5a81f098c807",
-    "pkg/redis/client/decoder.go:decodeType": "1dfad94c7833",
-    "pkg/redis/client/encoder.go:encodeArray": "cfbf5dcf3467",
-    "pkg/redis/client/encoder.go:encodeBulkBytes": "93feabd4cdac",
-    "pkg/redis/client/encoder.go:encodeInt": "4b20c3ad5e6a",
-    "pkg/redis/client/encoder.go:encodeResp": "4310b9ef1ec1",
-    "pkg/redis/client/encoder.go:encodeString": "f55548b0fef4",
-    "pkg/redis/client/encoder.go:encodeType": "dceb11040110",
-    "pkg/redis/client/encoder.go:itos": "bf076046a798",
-    "pkg/redis/client/handler.go:ChangeArgsToResp": "75a708d46ab9",
-    "pkg/redis/client/handler.go:ParseArgs": "122fb040e753",
-    "pkg/redis/client/proto/writer.go:WriteArg": "c6de4818c4bf",
-    "pkg/redis/client/proto/writer.go:WriteArgs": "c2b94c4e34ee",
-    "pkg/redis/client/proto/writer.go:bytes": "546dd69ce953",
-    "pkg/redis/client/proto/writer.go:crlf": "2739d17cbf5c",
-    "pkg/redis/client/proto/writer.go:int": "047df52c198c",
-    "pkg/redis/client/proto/writer.go:string": "9c796880ca91",
-    "pkg/redis/client/proto/writer.go:uint": "de10744b43d8",
-    "pkg/redis/client/proto/writer.go:writeLen": "130617b64042",
-    "pkg/redis/client/resp.go:AsArray": "1615b4b267c1",
-    "pkg/redis/client/resp.go:AsBulkBytes": "4fdc5c142d93"
+    "pkg/redis/client/conn/redis_conn.go:Send": "25526f5e11f5",
+    "pkg/redis/client/conn/redis_conn.go:send": "955436b105c1",
+    "pkg/redis/client/decoder.go:MustDecodeOpt": "4bffc1e7d964",
+    "pkg/redis/client/decoder.go:NewDecoder": "637b87f00bb7",
+    "pkg/redis/client/decoder.go:decodeArray": "0173a76a069a",
+    "pkg/redis/client/decoder.go:decodeInt": "7931778adf8a",
+    "pkg/redis/client/decoder.go:decodeResp": "a267e76ba730",
+    "pkg/redis/client/encoder.go:encodeArray": "7ba0219badfe",
+    "pkg/redis/client/encoder.go:encodeBulkBytes": "51d1eaac2777",
+    "pkg/redis/client/encoder.go:encodeInt": "5135ed61747c",
+    "pkg/redis/client/encoder.go:encodeResp": "8abf28305905",
+    "pkg/redis/client/encoder.go:encodeString": "bc85a2e84d27",
+    "pkg/redis/client/encoder.go:encodeType": "c2f926b1f2bd",
+    "pkg/redis/client/encoder.go:itos": "8e46bd2e4846",
+    "pkg/redis/client/handler.go:ChangeArgsToResp": "6cb51a4ebac4",
+    "pkg/redis/client/handler.go:ParseArgs": "2159b60c1b48",
+    "pkg/redis/client/proto/writer.go:WriteArg": "c449f4e751e8",
+    "pkg/redis/client/proto/writer.go:WriteArgs": "697009d6b6e8",
+    "pkg/redis/client/proto/writer.go:bytes": "1d5ad83d59ec",
+    "pkg/redis/client/proto/writer.go:crlf": "b867e199ea42",
+    "pkg/redis/client/proto/writer.go:int": "4261da086039",
+    "pkg/redis/client/proto/writer.go:string": "1bb1d8ee7019",
+    "pkg/redis/client/proto/writer.go:uint": "e35f42cab711",
+    "pkg/redis/client/proto/writer.go:writeLen": "a2de7ee00897",
+    "pkg/redis/client/resp.go:AsArray": "bb7c23daf2ee",
+    "pkg/redis/client/resp.go:AsBulkBytes": "f9bea8cc8294",
+}
+
+# the standard library functions the bufio model (Model/RespFrag.lean) transcribes, digested (normal form) from
+# GOROOT/src of the toolchain that builds extractor and harness (go1.26.8 when recorded): another Go release with a
+# changed bufio.Reader / io.ReadAtLeast is a broken TIE - re-read the model against it, then refresh
+EXPECTED_BUFIO = {
+    "bufio/bufio.go:Buffered": "e8093d78c27a",
+    "bufio/bufio.go:NewReaderSize": "6ca2a409e22d",
+    "bufio/bufio.go:Read": "2da3f88132d4",
+    "bufio/bufio.go:ReadByte": "3c5964d40cc9",
+    "bufio/bufio.go:ReadBytes": "e219390addfd",
+    "bufio/bufio.go:ReadSlice": "7cd19b8d38a2",
+    "bufio/bufio.go:UnreadByte": "d55bb28f7263",
+    "bufio/bufio.go:collectFragments": "c50ffa91b4dd",
+    "bufio/bufio.go:fill": "b91b2994ddae",
+    "bufio/bufio.go:readErr": "4fd41e2cebe7",
+    "io/io.go:ReadAtLeast": "a4b93bb2b527",
+    "io/io.go:ReadFull": "33b44fb13af4",
 }
 
 EXPECTED_DECODER_USERS = [
@@ -81,7 +106,7 @@ EXPECTED_BISYNC_FLOW = [
 
 
 PROP = {
-    "lean_modules": ["GunYu.Props.C12"],
+    "lean_modules": ["GunYu.Props.C12", "GunYu.Props.C12Frag"],
     "audit_namespaces": ["GunYu.Props.C12"],
     "required_theorems": [
         "GunYu.Props.C12.dec_natToDec",
@@ -102,21 +127,33 @@ PROP = {
         "GunYu.Props.C12.writeArgs_eq_encodeCmd",
         "GunYu.Props.C12.decode_writeArgs",
         "GunYu.Props.C12.decodeResp_offset_exact",
+        # session 5: any buffer size, any fragmentation (Model/RespFrag.lean: a model of bufio.Reader over a
+        # piecewise reader); the counter in wrapping int64 without a no-overflow hypothesis
+        "GunYu.Props.C12.decodeAll_any_fragmentation",
+        "GunYu.Props.C12.decodeAll_fragmentation_independent",
+        "GunYu.Props.C12.decodeAll_offsets_fragmented",
+        "GunYu.Props.C12.decodeAll_truncated_fragmented",
+        "GunYu.Props.C12.decodeResp_fragmented",
+        "GunYu.Props.C12.writeArgs_roundtrip_fragmented",
+        "GunYu.Props.C12.counter_int64_wraps",
+        "GunYu.Props.C12.parser_sum_int64_wraps",
     ],
     "expected_facts": {
         "c12_decoder_sites": EXPECTED_DECODER_SITES,
+        "c12_decoder_consts": EXPECTED_DECODER_CONSTS,
         "c12_decoder_users": EXPECTED_DECODER_USERS,
         "c12_offset_uses": EXPECTED_OFFSET_USES,
         "c12_start_offset_reassigned": [],
         "c12_bisync_offset_flow": EXPECTED_BISYNC_FLOW,
         "c12_bodies": EXPECTED_BODIES,
+        "c12_bufio": EXPECTED_BUFIO,
     },
     "harness": [{"name": "C12", "pkg": "./pkg/redis/client/", "test": "TestVerifC12",
                  "timeout_quick": "10m", "timeout_thorough": "40m"}],
     "driver": "drv_C12",
     "rule": "streams: corpus of canonical / non-canonical-but-accepted / malformed forms; single commands with every argument size "
             "0,1,2,127-129,4095-4097,65535-65537 at argument positions 1-3 (random binary, protocol-character, all-LF, CRLF and "
-            "embedded-command contents); argument counts 1-300; generated sequences of 1-60 (thorough 1-300) commands with "
+            "embedded-command contents); argument counts 1-300, 1024, 1025, 65537 (thorough also 2^20+1); generated sequences of 1-60 (thorough 1-300) commands with "
             "LF keep-alive runs between commands and start offsets 0 … 2^62; one (thorough: four) 2-6 MiB argument per run; "
             "every truncation and every single-byte substitution/deletion of two short streams, token soup and corrupted "
             "generated streams. Each stream is read by the real client.Decoder (NewDecoder, MustDecodeOpt, ParseArgs, "
@@ -138,11 +175,40 @@ PROP = {
             "EVERY stream, for every command returned before the first inline command: offset == start + preset + bytes really taken "
             "from the reader (reader position minus bufio.Buffered(), independent of d.offset). "
             "distinct_nontrivial = distinct well-formed streams with more than one command or more than 128 bytes. "
-            "Arguments longer than 24 bytes are compared as length + FNV-1a-64.",
+            "Arguments longer than 24 bytes are compared as length + FNV-1a-64. "
+            "FRAGMENTATION (session 5, `fr` / `frx` ops): four fixed streams (binary arguments holding CR, LF, `$`; empty arguments; LF "
+            "keep-alive runs; 12 arguments), one of them with the counter preset to 2^32-3, three streams outside the strict form "
+            "(zero-padded length lines longer than the smallest buffer, signed lengths, an inline command longer than the buffer, a null "
+            "bulk, a cut stream) and 12 (thorough 120) generated short streams are each read unfragmented, one byte per read, with a piece "
+            "boundary at EVERY index, with every single byte isolated in a read of its own, with 4 random piece lists, and with readers that return (n, io.EOF) with the last "
+            "bytes and / or (0, nil) up to three times in a row, through bufio sizes "
+            "16, 17, 23, 64, 4096; one 66-72 KB argument through sizes 16 / 4096 / 65536 with random pieces up to 30000 bytes. The reader returns "
+            "exactly the recorded pieces and records len(p) of every Read call that returned data; the Lean driver runs the bufio MODEL "
+            "(Model/RespFrag.lean) on the same pieces. Compared per configuration: commands, offsets, final error AND the request sizes up to the "
+            "last complete command (ties the bufio model to the standard library: fill into the free space, ErrBufferFull rounds, the large-read "
+            "bypass of Reader.Read). All configurations of a stream must agree with the unfragmented run (fragmentation-dependence), the property "
+            "monitor runs on each, and no two decoded arguments of a stream may occupy overlapping memory (args-share-memory; also on every "
+            "`dec` stream). SAME-SIZE VALUES: streams whose consecutive values have identical sizes 14 … 1 MiB+3 (all held to the end). "
+            "ABOVE 512 MiB (monitor only, `huge` replay): SET k <512 MiB+1 … +4096 pattern bytes>; PING from a lazy reader (reads of up to 8 MiB) "
+            "through the real decoder - argument bytes against the pattern, both offsets, reader position; thorough adds one of 768 MiB+.",
     "trusted": [
         "RESP multi-bulk framing as transcribed in Model/Resp.lean (encodeCmd/encodeBulk); client.Encode is diffed against it",
-        "Go bufio.Reader / io.ReadFull: the byte sequence delivered is independent of buffer size and read fragmentation "
-        "(exercised by the harness, not part of the theorems)",
+        "Go bufio.Reader / io.ReadFull as MODELLED in Model/RespFrag.lean (fill, ReadByte, UnreadByte, ReadBytes = collectFragments over "
+        "ReadSlice with its ErrBufferFull rounds and its pending-error branch, io.ReadFull = ReadAtLeast over Reader.Read with the large-read bypass "
+        "and the single read into an empty buffer; the pending error b.err) - a hand transcription of go1.26.8 src/bufio/bufio.go and io/io.go, for "
+        "EVERY reader io.Reader allows: pieces of any length including EMPTY ones (a `0, nil` read, retried by fill and by ReadAtLeast) and readers "
+        "that return io.EOF TOGETHER with the last bytes (`eofLast`; the error stays pending in `err` and later operations answer without calling "
+        "the reader; invariant ErrOK: pending implies exhausted). Independence of buffer size, fragmentation and kind of reader is a THEOREM about "
+        "this model (decodeAll_any_fragmentation, quantified over size, pieces and eofLast). That the model IS the toolchain's bufio is tied (a) by "
+        "the `fr` ops: same commands, offsets, final error AND same request sizes on the underlying reader, also for readers returning (0, nil) up "
+        "to three times in a row and / or (n, io.EOF) (counters frag_reader_returns_zero_bytes_without_error / frag_reader_returns_eof_with_data), "
+        "(b) by the source fact c12_bufio: digests of fill / readErr / Read / ReadByte / UnreadByte / Buffered / ReadSlice / collectFragments / "
+        "ReadBytes / NewReaderSize and io.ReadAtLeast / ReadFull read from GOROOT/src of the toolchain that builds extractor and harness - "
+        "ANOTHER GO RELEASE whose bufio differs is a broken tie (re-read the model, refresh EXPECTED_BUFIO), not silently another bufio. Two "
+        "deviations, both unobservable in results and in the data-returning requests: fill's limit of 100 consecutive empty reads "
+        "(io.ErrNoProgress) is not modelled - a reader that stalls 100 times in a row is outside the theorem; after a LARGE read that came with "
+        "io.EOF bufio forgets the error (ReadAtLeast got it) and would call the reader once more, the model keeps it pending. The ghost fields "
+        "`reqs` and `gas`: gas is proved never to run out for a reader created by Rd.new (Rd.new_inv + the invariant kept by every operation)",
         "strconv.ParseInt / AppendInt / AppendUint as modelled by parseInt64 / intToDec / natToDec (diffed on generated and boundary values)",
     ],
     "assumptions": [
@@ -150,7 +216,13 @@ PROP = {
         "correspondence plus extracted facts compared each run: read sites, `d.offset` updates and return statements of the multi-bulk "
         "path of decoder.go; digests of the bodies of the transcribed functions (decoder multi-bulk path, ParseArgs, AsBulkBytes, "
         "AsArray, encoder, proto.Writer, RedisConn.Send/send); the users of the decoder; every use of incrOffset rendered as its "
-        "whole enclosing statement; startOffset never reassigned. A fact mismatch is a broken TIE (`no-failing-input-found`): it means "
+        "whole enclosing statement; startOffset never reassigned. Sites and digests are taken of a normal form (harness/extract/c12_norm.go: "
+        "receiver -> d, parameters / locals / labels -> v<i> by declaration order, comments dropped, error and log texts blanked), so a renamed "
+        "local or receiver or a reworded error is not a tie failure. The three functions that read and count (decodeType, decodeText, "
+        "decodeBulkBytes) are not digested at all: c12_decoder_sites renders their reader calls with the size and their offset increments by def-use "
+        "(`read full(make([]byte, d.decodeInt()#0 + 2))`), c12_decoder_consts lists what they and any helper of decoder.go compare and call "
+        "(literal multiset, comparison count, fields, qualified calls) - goto -> for, an extracted helper, ReadFull -> ReadAtLeast stay OK, a new "
+        "threshold / size / reader call / increment / field does not. A fact mismatch is a broken TIE (`no-failing-input-found`): it means "
         "the model must be re-read against the changed code, it is not by itself evidence of a defect",
         "QUANTIFIER — replication streams are multi-bulk only (Redis propagates every command as `*n\\r\\n$len…`; an inline command is "
         "what a human types into telnet, the master never sends one). Inline commands are therefore OUTSIDE C12: the decoder counts "
@@ -158,9 +230,13 @@ PROP = {
         "observation, not a C12 violation and not fixed here. The model transcribes the current behaviour (example in Props/C12.lean) "
         "but the check does not defend it: inline-path sites are not pinned and offsets are not compared from the first inline command "
         "on, so the one-line repair (`d.offset--` after UnreadByte) passes the check",
-        "NOT REACHABLE — control flow that depends on an argument being larger than what can be generated (largest generated argument "
-        "6 MiB; a 512 MiB bulk would need ~12 GiB in the Lean driver's list representation) is covered only by the body digests "
-        "(c12_bodies), e.g. an allocation cap in decodeBulkBytes; the theorems hold for every length below 2^63 in the model",
+        "LARGE VALUES — one argument above 512 MiB (quick) and one above 768 MiB (thorough) go through the real decoder under the monitor "
+        "(bytes, offsets, reader position) - not through the Lean driver, whose list representation would need ~12 GiB; the theorems hold for "
+        "every length below 2^63 in the model. Control flow that depends on an argument larger than ~1 GiB stays visible only in the body "
+        "digests (c12_bodies)",
+        "ALIASING — the Lean model is value-based and cannot express shared memory: that a decoded argument stays intact while later commands "
+        "are decoded is checked on the real decoder only (every result of a stream is held until its end and then compared; no two arguments may "
+        "occupy overlapping memory; same-size values, values above 1 MiB and above 512 MiB included)",
         "DEPENDENCIES — C12 runs the decoder, ParseArgs, Encode and WriteArgs, not the parser loops around them. That the real "
         "syncer.parseAofCommand keeps each command's arguments intact while it decodes on (the `data` slice / sendBuf) and attaches "
         "startOffset+incrOffset to the right command is checked on the real loop by C01/C02 (sender harness); that "
@@ -169,7 +245,9 @@ PROP = {
         "offsets are natural numbers in the model; Go computes them in wrapping int64. Bridge (explicit no-overflow hypothesis "
         "`start + |stream| < 2^63`): decodeAll_offsets_le_end (every reported offset lies between start and the end of the stream), "
         "int64_add_exact / counter_int64_exact / parser_sum_int64_exact (Lean's Int64: the wrapping counter and the wrapping "
-        "`startOffset + incrOffset` equal the natural-number values). That the Go code really uses plain int64 additions and no narrower "
+        "`startOffset + incrOffset` equal the natural-number values); WITHOUT the hypothesis: counter_int64_wraps / parser_sum_int64_wraps - the "
+        "wrapping int64 counter and sum are ALWAYS the model's natural numbers reduced to 64 bits (so the hypothesis is only needed to read the "
+        "result as a non-negative number). That the Go code really uses plain int64 additions and no narrower "
         "type is the body digests + the preset-offset streams (2^31, 2^32, 2^53, 2^62), not a theorem",
         "WF: argument and argument-list lengths below 2^63 (true of every Go slice), a non-empty and ASCII command name. "
         "strings.ToLower's Unicode path (non-ASCII / invalid UTF-8 names are rewritten by Go) is not modelled and not generated; "
@@ -195,12 +273,17 @@ MANIFEST = {
             "leaves the rest unread (also after LF keep-alives); the parser loop reports offsets equal to the stream boundaries and ends with EOF; "
             "a damaged tail does not disturb the completely received prefix and a stream cut inside a command reports exactly the complete "
             "commands and then EOF/ErrUnexpectedEOF (nothing invented); a decoder whose counter is preset keeps exact offsets; WriteArgs framing decodes back to the same arguments; for every "
-            "accepted typed value (canonical or not, nested or not) the counter advances by exactly the bytes consumed. The hand-written decoder "
-            "model is tied to the Go code by differential correspondence through many bufio sizes and read fragmentations, plus extracted "
-            "read-site / offset-arithmetic facts.",
-    "note": "trusted: Lean kernel (propext, Classical.choice, Quot.sound only), RESP framing transcription, bufio fragmentation independence, "
+            "accepted typed value (canonical or not, nested or not) the counter advances by exactly the bytes consumed. FRAGMENTATION is in the theorems: "
+            "the same decoder written over a model of bufio.Reader in front of a reader that cuts the stream into ARBITRARY pieces gives, for every "
+            "buffer size and every piece list, exactly the result of the decoder over the plain bytes (decodeAll_any_fragmentation; "
+            "decodeAll_offsets_fragmented: lossless with exact offsets through any buffer and fragmentation); the counter in wrapping int64 is the "
+            "model's count mod 2^64 unconditionally. The hand-written decoder model is tied to the Go code by differential correspondence (random "
+            "fragmentations; a piece boundary at every index with the bufio model's request sizes compared with the real bufio's), plus extracted "
+            "read-site / offset-arithmetic facts over a rename-insensitive normal form.",
+    "note": "trusted: Lean kernel (propext, Classical.choice, Quot.sound only), RESP framing transcription, the bufio model (tied by request-size traces), "
             "strconv, extractor, harness; decoder functions modelled by hand (correspondence). Inline commands (outside the quantifier) double-count "
             "their first byte — recorded as an observation.",
-    "technique": "Lean 4 proof (structural induction over argument lists / command sequences / fuel-bounded nesting, decimal round trip) "
+    "technique": "Lean 4 proof (structural induction over argument lists / command sequences / fuel-bounded nesting, decimal round trip; simulation "
+                 "between the decoder over a chunked bufio model and the decoder over plain bytes with a gas/measure invariant) "
                  "+ differential correspondence + direct monitor with an independent strict RESP oracle",
 }
